@@ -11,6 +11,7 @@ import (
 	spec "github.com/named-data/ndnd/std/ndn/spec_2022"
 	"math/rand"
 	"sort"
+	"strings"
 	"sync"
 	"sync/atomic"
 
@@ -34,6 +35,10 @@ func c12Validate(signer string, cov enc.Wire, sig ndn.Signature) bool {
 		return sec.EcdsaValidate(cov, sig, &k.Ecc.PublicKey)
 	case "ecc384":
 		return sec.EcdsaValidate(cov, sig, &k.Ecc384.PublicKey)
+	case "ecc224":
+		return sec.EcdsaValidate(cov, sig, &k.Ecc224.PublicKey)
+	case "ecc521":
+		return sec.EcdsaValidate(cov, sig, &k.Ecc521.PublicKey)
 	case "rsa1024", "rsa1024int":
 		return sec.RsaValidate(cov, sig, &k.Rsa1024.PublicKey)
 	case "rsa2048":
@@ -57,6 +62,10 @@ func c12Independent(signer string, signed, sigVal []byte) bool {
 		return ecdsa.VerifyASN1(&k.Ecc.PublicKey, dg[:], sigVal)
 	case "ecc384":
 		return ecdsa.VerifyASN1(&k.Ecc384.PublicKey, dg[:], sigVal)
+	case "ecc224":
+		return ecdsa.VerifyASN1(&k.Ecc224.PublicKey, dg[:], sigVal)
+	case "ecc521":
+		return ecdsa.VerifyASN1(&k.Ecc521.PublicKey, dg[:], sigVal)
 	case "rsa1024", "rsa1024int":
 		return rsa.VerifyPKCS1v15(&k.Rsa1024.PublicKey, crypto.SHA256, dg[:], sigVal) == nil
 	case "rsa2048":
@@ -129,6 +138,44 @@ func c12Concurrent(c *h.Ctx, id string, r *rand.Rand) {
 	}
 }
 
+// c12AgreementOnly makes c12One stop after oracle A (construction, independent verification,
+// decoding and the matching validator on the untampered packet).
+var c12AgreementOnly bool
+
+// c12Many: many small packets per signer with a signature of variable numeric value (RSA, ECDSA):
+// whether an untampered packet verifies must not depend on the value the signature happens to have
+// (leading zero bytes, a short r or s, the longest possible encoding).
+func c12Many(c *h.Ctx, r *rand.Rand) {
+	c12AgreementOnly = true
+	defer func() { c12AgreementOnly = false }()
+	for _, sg := range []struct {
+		signer string
+		n      int
+	}{{"rsa1024", c.Pick(160, 1500)}, {"rsa1024int", c.Pick(40, 400)}, {"ecc", c.Pick(60, 600)}, {"ecc224", c.Pick(30, 300)}, {"ecc384", c.Pick(20, 200)}, {"ecc521", c.Pick(20, 200)}, {"eccint", c.Pick(20, 200)}} {
+		for i := 0; i < sg.n; i++ {
+			id := fmt.Sprintf("many-%s-%d", sg.signer, i)
+			var cs *pkt.Case
+			for {
+				cs = pkt.Gen(r)
+				if (cs.Kind == "interest") == strings.HasSuffix(sg.signer, "int") && len(cs.Name) <= 4 {
+					break
+				}
+			}
+			cs.Signer = sg.signer
+			if cs.Kind == "interest" || r.Intn(2) == 0 {
+				pay := make([]byte, r.Intn(24))
+				r.Read(pay)
+				cs.Payload = [][]byte{pay}
+			}
+			if !c.Case(id) {
+				continue
+			}
+			c12One(c, id, cs, r)
+			c.Count("many_signatures:"+sg.signer, 1)
+		}
+	}
+}
+
 func c12Run(c *h.Ctx) {
 	r := c.Rng("c12")
 	n := c.Pick(40, 1200)
@@ -185,6 +232,7 @@ func c12Run(c *h.Ctx) {
 			c12Concurrent(c, id+"-concurrent", br)
 		}
 	}
+	c12Many(c, c.Rng("c12-many"))
 }
 
 // c12Boundary resizes the payload so that the outer TLV's value length lands next to a
@@ -193,7 +241,7 @@ func c12Run(c *h.Ctx) {
 func c12Boundary(cs *pkt.Case, r *rand.Rand) {
 	if c12Signed(cs.Signer) && r.Intn(2) == 0 { // variable-length signatures (estimate 72/104, actual shorter)
 		if cs.Kind == "data" {
-			cs.Signer = []string{"ecc", "ecc384"}[r.Intn(2)]
+			cs.Signer = []string{"ecc", "ecc384", "ecc224", "ecc521"}[r.Intn(4)]
 		} else {
 			cs.Signer = "eccint"
 		}
@@ -381,6 +429,10 @@ func c12One(c *h.Ctx, id string, cs *pkt.Case, r *rand.Rand) {
 		}
 	}
 	c.Count("agreement_checked", 1)
+	if c12AgreementOnly {
+		c.Count("agreement_only_packets", 1)
+		return
+	}
 
 	// ---- Oracle B: single bit flips
 	var positions []int // bit positions
